@@ -3,11 +3,14 @@
 package stublog
 
 import (
+	"bytes"
+	"compress/gzip"
 	"context"
 	"encoding/hex"
 	"encoding/json"
 	"fmt"
 	"net/http"
+	"net/http/httptest"
 	"strconv"
 	"strings"
 	"sync"
@@ -296,4 +299,50 @@ func (l *Log) RekorHandler(treeID string) http.Handler {
 			http.NotFound(w, r)
 		}
 	})
+}
+
+// FrontEnd puts what real deployments put in front of a log between the feeder and the stub: "gzip" compresses bodies of 256 bytes or more for
+// clients that accept it (a CDN, a reverse proxy with compression on); "redirect" answers every request outside /canonical with a 301 to the
+// same path under /canonical (moved hosting, canonicalised URLs). "plain" is the handler itself.
+func FrontEnd(h http.Handler, mode string) http.Handler {
+	switch mode {
+	case "gzip":
+		return http.HandlerFunc(func(rw http.ResponseWriter, r *http.Request) {
+			rec := httptest.NewRecorder()
+			h.ServeHTTP(rec, r)
+			for k, v := range rec.Header() {
+				rw.Header()[k] = v
+			}
+			body := rec.Body.Bytes()
+			if strings.Contains(r.Header.Get("Accept-Encoding"), "gzip") && len(body) >= 256 && rec.Code == 200 {
+				var buf bytes.Buffer
+				zw := gzip.NewWriter(&buf)
+				zw.Write(body)
+				zw.Close()
+				rw.Header().Set("Content-Encoding", "gzip")
+				rw.Header().Del("Content-Length")
+				rw.WriteHeader(rec.Code)
+				rw.Write(buf.Bytes())
+				return
+			}
+			rw.WriteHeader(rec.Code)
+			rw.Write(body)
+		})
+	case "redirect":
+		return http.HandlerFunc(func(rw http.ResponseWriter, r *http.Request) {
+			if !strings.HasPrefix(r.URL.Path, "/canonical/") {
+				u := "/canonical" + r.URL.Path
+				if r.URL.RawQuery != "" {
+					u += "?" + r.URL.RawQuery
+				}
+				http.Redirect(rw, r, u, http.StatusMovedPermanently)
+				return
+			}
+			r2 := r.Clone(r.Context())
+			r2.URL.Path = strings.TrimPrefix(r.URL.Path, "/canonical")
+			r2.URL.RawPath = ""
+			h.ServeHTTP(rw, r2)
+		})
+	}
+	return h
 }
